@@ -238,12 +238,15 @@ type State struct {
 	steps    int
 	dead     bool
 	ghostErrs *Term // unused placeholder for future ghost state
+	strIdx   []strIdxRec // symbolic string index reads s[i] on this path (for Builder.WriteByte prefix facts)
 }
+
+type strIdxRec struct{ s, i, b *Term }
 
 func (st *State) clone() *State {
 	n := &State{heap: st.heap.clone(), cells: make(map[cellKey]Val, len(st.cells)),
 		pc: append([]*Term{}, st.pc...), eqs: make(map[*Term]*Term, len(st.eqs)), normMemo: map[*Term]*Term{},
-		iters: map[int64]*iterState{}, steps: st.steps}
+		iters: map[int64]*iterState{}, steps: st.steps, strIdx: append([]strIdxRec{}, st.strIdx...)}
 	for k, v := range st.cells {
 		n.cells[k] = v
 	}
